@@ -424,3 +424,62 @@ func harnessLRParse() {
 	}
 	checkSyntaxError(err, toks, bad, lx)
 }
+
+// harnessLRBody: the same comparison with the tokens `grammar IDENT IDENT =` fixed in front of
+// lrBodyK arbitrary tokens and a closing `;` : it reaches deeper into rule bodies, where the
+// documented precedence and associativity decide the shape of the parse.
+func harnessLRBody() {
+	k := verif.Len("k", 0, lrBodyK)
+	body := symTokens(k)
+	fixed := []string{"grammar", "IDENT", "IDENT", "="}
+	toks := make([]lexer.Token, 0, k+5)
+	mk := func(kind string, i int) lexer.Token {
+		return lexer.Token{Terminal: grammar.Terminal(kind), Lexeme: "f" + vitoa(i), Pos: lexer.Position{Filename: "f", Offset: 1000 + i, Line: 50 + i, Column: 3}}
+	}
+	for i, kd := range fixed {
+		toks = append(toks, mk(kd, i))
+	}
+	toks = append(toks, body...)
+	toks = append(toks, mk(";", 9))
+	lx := &stubLexer{toks: toks, failAt: -1}
+	p := &Parser{L: lx}
+	var got []int
+	err := p.Parse(
+		func(t *lexer.Token) error {
+			idx := -1
+			for i := range toks {
+				if toks[i].Lexeme == t.Lexeme {
+					idx = i
+				}
+			}
+			got = append(got, -1-idx)
+			return nil
+		},
+		func(i int) error {
+			got = append(got, i)
+			return nil
+		},
+	)
+	tree, bad := refParse(kindsOf(toks))
+	if tree != nil {
+		verif.Reach("accepted")
+		verif.Assert(err == nil, "a sentence of the documented grammar is rejected")
+		if err != nil {
+			return
+		}
+		var want []int
+		events(tree, &want)
+		same := len(want) == len(got)
+		for i := 0; same && i < len(want); i++ {
+			same = want[i] == got[i]
+		}
+		verif.Assert(same, "callbacks are not the reverse rightmost derivation the documented precedence prescribes")
+		return
+	}
+	verif.Reach("rejected")
+	verif.Assert(err != nil, "a token sequence that is not a sentence of the documented grammar is accepted")
+	if err == nil {
+		return
+	}
+	checkSyntaxError(err, toks, bad, lx)
+}
